@@ -41,6 +41,13 @@ GEN_S = ('===GEN_S===\nMETA:\n  TYPE::PROTOCOL_DEFINITION\n  VERSION::"1.0"\n\nP
 GEN_W = GEN_S.replace("GEN_S", "GEN_W").replace("UNKNOWN_FIELDS::REJECT", "UNKNOWN_FIELDS::WARN")
 GEN_T = ('===GEN_T===\nMETA:\n  TYPE::PROTOCOL_DEFINITION\n  VERSION::"1.0"\n\nFIELDS:\n  Status::["x"∧REQ∧CONST[abc]→§SELF]\n  STATUS::["x"∧OPT∧DATE→§SELF]\n'
          '  A.B::["x"∧OPT∧ISO8601→§SELF]\n  A_B::["x"∧OPT∧TYPE[BOOLEAN]→§SELF]\n===END===\n')
+# values that compare equal in Python but are written differently
+D["zero_pos"] = '===DOC===\nMETA:\n  TYPE::"TEST"\n  VERSION::"1.0"\nA::0.0\nB::[0.0,1,"1"]\n===END===\n'
+D["zero_neg"] = '===DOC===\nMETA:\n  TYPE::"TEST"\n  VERSION::"1.0"\nA::-0.0\nB::[-0.0,1.0,true]\nC::0\nD::false\n===END===\n'
+D["ones"] = '===DOC===\nMETA:\n  TYPE::"TEST"\n  VERSION::"1.0"\nA::1\nB::1.0\nC::true\nD::"1"\nE::"true"\nF::"1.0"\n===END===\n'
+# the same envelope name and VERSION as GEN_S, other fields
+GEN_S_OTHER = ('===GEN_S===\nMETA:\n  TYPE::PROTOCOL_DEFINITION\n  VERSION::"1.0"\n\nFIELDS:\n  TITLE::["x"∧REQ∧ENUM[1,2,3]→§SELF]\n  REVISION::["x"∧OPT∧CONST[1]→§SELF]\n===END===\n')
+D["schema_gen_s_other"] = GEN_S_OTHER
 D["schema_gen_s"] = GEN_S
 D["schema_gen_t"] = GEN_T
 D["contract"] = ('===SELFDESC===\nMETA:\n  TYPE::SELFDESC\n  VERSION::"1.0"\n  CONTRACT::[\n    FIELD[STATUS]::REQ∧ENUM[ACTIVE,PAUSED],\n    FIELD[Status]::OPT∧CONST[x],\n'
@@ -66,7 +73,7 @@ def doc_text(did):
 
 
 DOCS = ["clean", "lenient", "sections", "meta_ambiguous", "meta_invalid", "unparseable", "debate_ok", "debate_bad", "gen_ok", "gen_bad", "gen_prefix",
-        "contract", "pkg0", "pkg1", "pkg2", "pkg3"]
+        "contract", "pkg0", "pkg1", "pkg2", "pkg3", "zero_pos", "zero_neg", "ones"]
 
 
 def all_calls(level="quick"):
@@ -76,12 +83,12 @@ def all_calls(level="quick"):
         c.append("api:lenient:%s" % d)
     for d in ("clean", "lenient", "sections", "unparseable", "pkg2"):
         c.append("api:strict:%s" % d)
-    for d in ("clean", "sections", "pkg1"):
+    for d in ("clean", "sections", "pkg1", "zero_neg", "zero_pos"):
         c.append("api:seal:%s" % d)
     for d in ("schema_gen_s", "schema_gen_t"):
         c.append("api:grammar:%s" % d)
     c.append("api:contract_grammar:contract")
-    for d in ("clean", "meta_ambiguous", "meta_invalid", "lenient", "unparseable", "sections", "pkg3"):
+    for d in ("clean", "meta_ambiguous", "meta_invalid", "lenient", "unparseable", "sections", "pkg3", "zero_pos", "zero_neg", "ones"):
         c.append("validate:META:%s:-" % d)
     c += ["validate:META:lenient:fix", "validate:META:meta_invalid:compact", "validate:META:meta_invalid:hint", "validate:META:meta_invalid:diff",
           "validate:META:meta_ambiguous:strictprofile", "validate:SKILL:pkg0:-"]
@@ -100,14 +107,14 @@ def all_calls(level="quick"):
     c += ["eject:sections:executive:octave", "eject:sections:developer:octave", "eject:pkg3:authoring:octave", "eject:schema_gen_s:canonical:gbnf",
           "eject:contract:canonical:gbnf", "eject:clean:template:octave"]
     c += ["grammar:schema:GEN_S:gbnf", "grammar:schema:GEN_W:gbnf", "grammar:schema:META:gbnf", "grammar:schema:DEBATE_TRANSCRIPT:gbnf", "grammar:schema:GEN_S:json_schema",
-          "grammar:content:schema_gen_s:gbnf", "grammar:content:schema_gen_t:gbnf", "grammar:content:contract:gbnf", "grammar:content:schema_gen_t:json_schema"]
+          "grammar:content:schema_gen_s:gbnf", "grammar:content:schema_gen_s_other:gbnf", "grammar:content:schema_gen_s_other:json_schema", "grammar:content:schema_gen_t:gbnf", "grammar:content:contract:gbnf", "grammar:content:schema_gen_t:json_schema"]
     c += ["cli:normalize:lenient", "cli:normalize:sections", "cli:validate:META:meta_invalid", "cli:validate:GEN_S:gen_bad", "cli:eject:sections:json",
           "cli:eject:clean:markdown", "cli:seal:clean", "cli:write:lenient", "cli:validatefix:DEBATE_TRANSCRIPT:debate_bad"]
     return c
 
 
-GRAMMAR_CALLS = ["grammar:schema:GEN_S:gbnf", "grammar:content:schema_gen_t:gbnf", "grammar:content:contract:gbnf", "api:grammar:schema_gen_s", "grammar:schema:GEN_W:gbnf"]
-VALIDATE_CALLS = ["validate:GEN_S:gen_bad:-", "validate:GEN_W:gen_bad:-", "validate:META:meta_invalid:-", "validate:GEN_S:gen_prefix:fix", "write:GEN_S:gen_bad:lenient"]
+GRAMMAR_CALLS = ["grammar:schema:GEN_S:gbnf", "grammar:content:schema_gen_s_other:gbnf", "grammar:content:contract:gbnf", "grammar:content:schema_gen_s:gbnf", "grammar:schema:GEN_W:gbnf"]
+VALIDATE_CALLS = ["validate:META:zero_pos:-", "validate:META:zero_neg:-", "validate:GEN_S:gen_bad:-", "validate:META:ones:-", "write:GEN_S:gen_bad:lenient"]
 
 
 # ------------------------------------------------------------------ execution
